@@ -113,7 +113,10 @@ def search_request(payload):
         cmds = [None]
     streams = []
     for b in (0, 1, 2, 24, 25, 26):
-        for tail in ([b'%s\r\n'], [b'%s,1\r\n'], [b'%sX\r\n'], [b'ZZ\r\n'], [b'%s Err: 1\r\n'], ['EXC'], []):
+        for tail in ([b'%s\r\n'], [b'%s,1\r\n'], [b'%sX\r\n'], [b'ZZ\r\n'], [b'%s Err: 1\r\n'], ['EXC'], [],
+                     # payloads that begin with a comma or blank; a refused / foreign reply FOLLOWED by a well-formed one
+                     [b'%s,,x\r\n'], [b'%s,\r\n'], [b'%s, x\r\n'], [b'ZZ\r\n', b'%s\r\n'], [b'!8 Err: x\r\n', b'%s,1\r\n'],
+                     [b'%s Err: 1\r\n', b'%s\r\n'], [b'ZZ\r\n', b'', b'%s\r\n']):
             streams.append([b''] * b + tail)
     for cmd in cmds:
         t = 'QG' if cmd is None else cmd.strip()
